@@ -171,7 +171,24 @@ def run(tier, seed):
         ios = make_ios(g, r2, mod, wide="-fwide-types" in OPTSETS[i % len(OPTSETS)])
         text = mod.text()
         assert text.rstrip().endswith("END")
-        text = text.rstrip()[:-3] + ios_text(ios, mod) + "\nEND\n"
+        rwtext = ""
+        ios.recursive = r2.random() < 0.5
+        if ios.recursive:
+            # a row type that contains the frame again: asn1c holds this variant of the open type by pointer
+            if ios.idkind == "oid":
+                nid = (1, 3, 6, 301, 7)
+            else:
+                nid = next(x for x in ([5, 77, 130, 201, 250] if ios.idkind == "cint" or "-fwide-types" in OPTSETS[i % len(OPTSETS)] else [5, 77, -9, 70000])
+                           if x not in [a for a, _ in ios.rows])
+            ios.rows.append((nid, "RW"))
+            rwtext = "RW ::= SEQUENCE {\n    n INTEGER,\n    inner Frame OPTIONAL\n}\n\n"
+            shadow = Type("SEQUENCE", comps=[Comp("n", Type("INTEGER")), Comp("inner", Type("NULL"), optional=True)])
+            gen._set_module(shadow, mod)
+            mod.add("RW", shadow)       # reference view: values are generated with 'inner' absent
+            if mod.tagdefault == "AUTOMATIC":
+                for k_, c_ in enumerate(shadow.comps):
+                    c_.autotag = k_
+        text = text.rstrip()[:-3] + rwtext + ios_text(ios, mod) + "\nEND\n"
         d = os.path.join(root, "m%d" % i)
         os.makedirs(d, exist_ok=True)
         path = os.path.join(d, "M.asn1")
@@ -207,6 +224,9 @@ def run(tier, seed):
         pool = []
         allvals = {}
         for idv, tn in ios.rows:
+            if tn == "RW":
+                allvals[tn] = [{"n": v} for v in (0, -1, 127, 300, -70000, 1 << 40)][:nvals]
+                continue
             allvals[tn] = g.values(mod.types[tn], nvals)
 
         def fval(idv, v):
@@ -320,6 +340,34 @@ def run(tier, seed):
                 cid3 = len(cases3) + 1
                 cases3.append(drv.Case(cid3, ["dec s=0 t=Frame syn=CXER in=%s" % drv.hx(doc), "enc s=0 syn=DER", "free s=0"]))
                 meta3[cid3] = (m[1], fam, doc, r.events[13]["out"])
+        # ... and frames nested through the recursive row type, spliced from the library's own XER documents
+        owndocs = []
+        for cid, m in meta.items():
+            r = res.get(cid)
+            if m[0] == "match" and r is not None and r.status == "ok" and len(r.events) >= 15 and r.events[2].get("out") not in (None, "-") \
+                    and r.events[12].get("rc") == "OK" and r.events[13].get("out") == m[4].hex():
+                owndocs.append((m[1], drv.unhex(r.events[2]["out"])))
+        cases4, meta4 = [], {}
+        outer = [d_ for tn_, d_ in owndocs if tn_ == "RW"]
+        if outer:
+            for tn_, d_ in (owndocs if not quick else rng.sample(owndocs, min(len(owndocs), 12))):
+                if not (d_.startswith(b"<Frame>") and d_.endswith(b"</Frame>")):
+                    continue
+                o = rng.choice(outer)
+                at = o.find(b"</n>")
+                if at < 0:
+                    continue
+                depth = rng.choice([1, 1, 2, 5])
+                doc = d_
+                for _ in range(depth):
+                    doc = o[:at + 4] + b"<inner>" + doc[len(b"<Frame>"):-len(b"</Frame>")] + b"</inner>" + o[at + 4:]
+                cid4 = len(cases4) + 1
+                cases4.append(drv.Case(cid4, ["dec s=0 t=Frame syn=CXER in=%s" % drv.hx(doc), "enc s=0 syn=DER reg=1", "dec s=1 t=Frame syn=BER inreg=1",
+                                              "enc s=1 syn=CXER", "free s=1", "prt s=0", "chk s=0 eb=64", "free s=0",
+                                              # the same DER cut short: the half-built inner frames must be released
+                                              "enc s=0 syn=DER quiet=1"]))
+                meta4[cid4] = (tn_, depth, doc)
+        res4 = drv.run_parallel(exe, cases4)
         res3 = drv.run_parallel(exe, cases3)
         res2 = drv.run_parallel(exe, cases2)
 
@@ -461,6 +509,27 @@ def run(tier, seed):
                                   d.get("rc"), (e.get("out") or "-")[:40], der0[:40]), replay)
             else:
                 chk.count("xer_wrapper_rewriting_ok")
+        for cid4, (tn, depth, doc) in meta4.items():
+            r = res4.get(cid4)
+            if r is None or r.status == "notrun":
+                chk.inconcl("case not run")
+                continue
+            chk.evaluations += 1
+            chk.seen((ms, "nested", doc))
+            rk = mod.resolve(mod.types[tn]).kind
+            key = {"case": "nested-frames", "idkind": idk, "rowkind": rk, "depth": depth}
+            replay = {"module": text, "row_type": tn, "input_hex": doc.hex(), "syntax": "CXER", "document": doc.decode("latin-1")[:2000]}
+            if safety(r, "%d frame(s) nested through RW around a frame carrying %s" % (depth, tn), key, replay):
+                continue
+            ev = r.events
+            if len(ev) < 4 or ev[0].get("rc") != "OK":
+                chk.violation(dict(key, symptom="nested-not-decoded"), "a frame carrying %s nested %d deep through the recursive row type RW is not decoded from XER: %s" % (
+                    tn, depth, ev[0].get("rc") if ev else "-"), replay)
+            elif ev[1].get("rc") in ("-1", None) or ev[2].get("rc") != "OK" or drv.unhex(ev[3].get("out") or "") != doc:
+                chk.violation(dict(key, symptom="nested-roundtrip"), "a frame carrying %s nested %d deep through RW: XER -> DER (%s) -> decode (%s) -> XER %s the document" % (
+                    tn, depth, ev[1].get("rc"), ev[2].get("rc"), "equals" if drv.unhex(ev[3].get("out") or "") == doc else "differs from"), replay)
+            else:
+                chk.count("nested_frames_roundtrip_ok")
         import shutil
         shutil.rmtree(os.path.dirname(os.path.dirname(exe)), ignore_errors=True)
     return chk.finish()
